@@ -1,4 +1,5 @@
 import Driver.IntDrv
+import Driver.CovDrv
 /-! `zwmodel`: the executable side of the hand-written models.  One request per
     line on stdin, one answer per line on stdout. -/
 open Driver
@@ -6,6 +7,7 @@ open Driver
 def step (line : String) : String :=
   match line.trimAscii.toString.splitOn " " with
   | "N" :: rest => handleInt rest
+  | "C" :: rest => handleCov rest
   | _ => "bad-op"
 
 partial def loop (h : IO.FS.Stream) (out : IO.FS.Stream) : IO Unit := do
